@@ -452,27 +452,33 @@ def action_evaluator_rule(ctx, program, rid):
 def star_import_rule(ctx, program, rid):
     from ..flow import FlowPolicy, exits, run_flow
     uid = "eval.py::AstEval.ast_importfrom"
-    names = {"public": Const(1), "_private": Const(2), "__dunder__": Const(3), "trailing_": Const(4), "_": Const(5), "a_b": Const(6)}
-    mod = ObjV("mod", "module")
-    pol = FlowPolicy(program, may_raise_all=False, cancel=False, summaries={"self.global_ctx.module_import": lambda i, n, a, k, c, o: [(c, mod)]})
-    pol.loop_unroll = 10
-    own = [(Const("_private"), Const("mine")), (Const("keep"), Const("mine"))]
-    heap = {"mod.__dict__": DictV([(Const(k), v) for k, v in names.items()]), "self.sym_table": DictV(own), "self.global_ctx": ObjV("gctx", "GlobalContext")}
-    out = run_flow(program, uid, pol, args={"self": ObjV("self", "AstEval"), "arg": to_nodev(ast.parse("from m import *").body[0])}, heap=heap)
-    want = dict(own)
-    want.update({Const(k): v for k, v in names.items() if not k.startswith("_")})
-    bad = None
-    ex = exits(out)
-    for k, c, d in ex:
-        tab = c.heap.get("self.sym_table")
-        got = dict(tab.items) if isinstance(tab, DictV) else None
-        if k != "return" or got != want:
-            extra = sorted(x.v for x in (got or {}) if x not in want or (got or {}).get(x) != want.get(x))
-            missing = sorted(x.v for x in want if x not in (got or {}))
-            bad = f"{d}: the importing scope gets/overwrites {extra}, lacks {missing}"
-    ctx.check(bool(ex) and bad is None, rid, uid, "star import copies the public names only",
-              msg=f"`from m import *` with module globals {sorted(names)}: {bad or 'no exit'}: a private global of the importer is overwritten by (and shared with) the module's", key="star import names",
-              node=program.func(uid), rel="eval.py")
+    base = {"public": Const(1), "_private": Const(2), "__dunder__": Const(3), "trailing_": Const(4), "_": Const(5), "a_b": Const(6)}
+    for label, names, want_names in (
+        ("no __all__: the public names", dict(base), [k for k in base if not k.startswith("_")]),
+        ("__all__ = ['public', '_private']: exactly the listed names", dict(base, __all__=ListV((Const("public"), Const("_private")), "list")), ["public", "_private"]),
+    ):
+        mod = ObjV("mod", "module")
+        pol = FlowPolicy(program, may_raise_all=False, cancel=False, summaries={"self.global_ctx.module_import": lambda i, n, a, k, c, o: [(c, mod)]})
+        pol.loop_unroll = 10
+        own = [(Const("_private"), Const("mine")), (Const("keep"), Const("mine")), (Const("a_b"), Const("mine"))]
+        heap = {"mod.__dict__": DictV([(Const(k), v) for k, v in names.items()]), "self.sym_table": DictV(own), "self.global_ctx": ObjV("gctx", "GlobalContext")}
+        for k, v in names.items():
+            heap[f"mod.{k}"] = v
+        out = run_flow(program, uid, pol, args={"self": ObjV("self", "AstEval"), "arg": to_nodev(ast.parse("from m import *").body[0])}, heap=heap)
+        want = dict(own)
+        want.update({Const(k): names[k] for k in want_names})
+        bad = None
+        ex = exits(out)
+        for k, c, d in ex:
+            tab = c.heap.get("self.sym_table")
+            got = dict(tab.items) if isinstance(tab, DictV) else None
+            if k != "return" or got != want:
+                extra = sorted(x.v for x in (got or {}) if x not in want or (got or {}).get(x) != want.get(x))
+                missing = sorted(x.v for x in want if x not in (got or {}))
+                bad = f"{d}: the importing scope gets/overwrites {extra}, lacks {missing}"
+        ctx.check(bool(ex) and bad is None, rid, uid, f"star import, {label}",
+                  msg=f"`from m import *` with module globals {sorted(names)} ({label}): {bad or 'no exit'}: a global of the importer is overwritten by (and shared with) the module's, "
+                  "or a listed name is missing", key="star import names" if "__all__" not in names else "star import __all__", node=program.func(uid), rel="eval.py")
 
 
 def import_reuse_cases(program):
